@@ -107,6 +107,17 @@ def cases(tier, seed):
         for buf in (False, True):
             for mode in ('seq', 'j2', 'j3', 'c', 'p'):
                 yield ['BIG', nie, {}, buf, 0 if mode != 'p' else 1, mode]
+    # --repeat: a test that raises in one iteration only is still recorded
+    # against that test when the run ends
+    for shape in ('A1B2c', 'N1B2C1', 'U1A2'):
+        nslots = len(ow.SHAPES[shape][1])
+        for pos in range(nslots):
+            for sc in ('error@1', 'fail@1', 'error@2', 'sysexit@1', 'fail@3'):
+                for buf in (False, True):
+                    for mode in ('rep2', 'rep3', 'rep3+j2'):
+                        scripts = ['pass'] * nslots
+                        scripts[pos] = sc
+                        yield [shape, scripts, {}, buf, 0, mode]
     for shape in ow.SHAPES:
         nslots = len(ow.SHAPES[shape][1])
         for scripts in ow.placements(nslots, menu, K):
@@ -142,6 +153,8 @@ def argv_of(buf, v, mode):
         argv.append('-c')
     elif mode == 'c+j2':
         argv += ['-c', '-j2']
+    elif mode.startswith('rep'):
+        argv += ['--repeat', mode[3]] + (['-j2'] if mode.endswith('j2') else [])
     elif mode.startswith('xml'):
         argv += ['--xml', '/dev/shm/vt-c04-xml-%d' % os.getpid()] + (['-j2'] if mode.endswith('j2') else [])
     return argv
@@ -199,7 +212,7 @@ def run_case(case):
     bad_setup = {L for L, f in lf.items() if 'setUp' in f}
     for t in spec['tests']:
         lay = t.get('l')
-        want = 0 if (lay is not None and sv.closure[lay] & bad_setup) else 1
+        want = 0 if (lay is not None and sv.closure[lay] & bad_setup) else (int(mode[3]) if mode.startswith('rep') else 1)
         if truth.runs[t['n']] != want:
             V('executed_count', 'test %s executed %d times, expected %d' % (t['n'], truth.runs[t['n']], want))
     for clause, detail in monitors.check_layer_stack(sv, res):
